@@ -267,7 +267,7 @@ func seqProfile0(prop, tier string) *SeqProfile {
 		g.Versions = false // (migration between backups is not "only appended to")
 		g.WPublish = 60
 		q := []string{"n", "a", "b", "g"}
-		return &SeqProfile{Prop: prop, Gen: g, NRandom: tierN(tier, 300, 40000), Module: "TraceAbs.tla", Cfg: "TraceAbs.cfg",
+		return &SeqProfile{Prop: prop, Gen: g, NRandom: tierN(tier, 300, 150000), Module: "TraceAbs.tla", Cfg: "TraceAbs.cfg",
 			Obs: Obs{KeyQ: q},
 			Hist: func(id int, seed int64) *History {
 				gg := g
@@ -297,7 +297,13 @@ func seqProfile0(prop, tier string) *SeqProfile {
 	case "C18":
 		return &SeqProfile{Prop: prop, NRandom: 0, Module: "TraceNotifyFinal.tla", Cfg: "TraceNotifyFinal.cfg",
 			Design: []DesignRun{{Module: "MCNotify.tla", Cfg: "notify_q.cfg", Workers: 8, Timeout: 10 * time.Minute,
-				Note: "Notify.tla: NoLostWakeup, Caused, TokenMutex and liveness under weak fairness (3 waiters below/at/above, 2 setters, Close, 1 cancel)"}},
+				Note: "Notify.tla: NoLostWakeup, Caused, TokenMutex and liveness under weak fairness (3 waiters below/at/above, 2 setters, Close, 1 cancel)"},
+				{Module: "MCNotify.tla", Cfg: "notify_no_token.cfg", Workers: 4, Timeout: 5 * time.Minute, Expect: "NoLostWakeup",
+					Note: "negative control: probing before the token is taken (seeded change S39 at design level) loses a wake-up"},
+				{Module: "NotifyInd.tla", Apalache: []string{"--cinit=" + tierS(tier, "ConstInitQ", "ConstInitT"), "--init=Init", "--next=Next", "--inv=IndInv", "--length=0"}, Timeout: 20 * time.Minute,
+					Note: "inductive invariant, base case: Init => IndInv"},
+				{Module: "NotifyInd.tla", Apalache: []string{"--cinit=" + tierS(tier, "ConstInitQ", "ConstInitT"), "--init=IndInit", "--next=Next", "--inv=IndInv", "--length=1"}, Timeout: 60 * time.Minute,
+					Note: "inductive invariant, step: IndInv /\\ Next => IndInv' (Apalache, symbolic): NoLostWakeup, Caused, TokenMutex hold in every reachable state for behaviours of any length; quick: 4 waiters at any offsets in 0..3, 2 setters with any values, any cancellable set, Close; thorough: 8 waiters, 3 setters"}},
 			Extra:  runNotify,
 			Rule:   "C18: (i) TLC-generated schedules of Notify.tla (one shortest schedule per distinct model state, seeded stride in quick) are stepped through the real pkg/notify.Offset goroutine by goroutine via the notify.* pause points; at quiescence TLC judges which waiters returned with what and which are still blocked (TraceNotifyFinal); the step-by-step trace is validated against Notify.tla for drift only; (ii) free-running mixes of up to 8 waiters, setters, Close and cancels; (iii) phase scenarios on OpenBlocking: immediate returns below NextOffset / relative offsets equal Consume, waiters at and beyond NextOffset stay blocked, are woken by a passing Publish with Consume's result, cancel, Close, wait after Close.",
 			Assume: []string{"'stays blocked' is a bounded-time observation (15-40 ms); 'wakes' allows 5 s"},
